@@ -361,7 +361,11 @@ func c03history(r *core.Recorder, p *rig.ProxyRig, o *rig.Origin, mode rig.Mode,
 
 	// probe 1: well inside the lifetime (only when the lifetime is long enough to aim at)
 	if L >= 100*time.Millisecond {
-		time.Sleep(time.Duration(float64(L-slack) * 0.25))
+		frac := 0.25
+		if c.DateSkew != 0 {
+			frac = 0.65 // more than a second resident, so that the Age lower bound is not trivially 0
+		}
+		time.Sleep(time.Duration(float64(L-slack) * frac))
 		resp, pr := do("fresh")
 		probes = append(probes, pr)
 		if resp.Err == nil {
